@@ -140,3 +140,45 @@ class LegacyArgs0U(LegacyArgs0):
     """Undecorated subclass of the no-argument old-style class."""
 
 # }}}
+
+
+# {{{ expr_dataclass nodes with a field that is NOT a constructor argument
+
+from dataclasses import field  # noqa: E402
+
+
+@expr_dataclass()
+class InitFalseDerived(p.Expression):
+    """field(init=False) derived from the other fields in __post_init__ (idempotent)."""
+    child: object
+    factor: int
+    parity: int = field(default=0, init=False)
+
+    def __post_init__(self):
+        object.__setattr__(self, "parity", self.factor % 2)
+
+
+@expr_dataclass()
+class InitFalseFactory(p.Variable):
+    """field(init=False) assigned by a factory function after construction."""
+    serial: int = field(default=-1, init=False)
+
+
+def make_init_false_factory(name, serial):
+    result = InitFalseFactory(name)
+    object.__setattr__(result, "serial", serial)
+    return result
+
+
+@expr_dataclass()
+class InitFalseOnly(p.Expression):
+    """ALL state outside the constructor: no init field at all."""
+    stamp: object = field(default=None, init=False)
+
+
+def make_init_false_only(stamp):
+    result = InitFalseOnly()
+    object.__setattr__(result, "stamp", stamp)
+    return result
+
+# }}}
